@@ -47,7 +47,7 @@ func parsePluginName(fileName string) (string, error) {
 	}
 	fname := file.TrimFileExtension(fileName)
 	pluginName, found := strings.CutPrefix(fname, plugin.BinaryPrefix)
-	if !found || pluginName == "" {
+	if !found || validatePluginName(pluginName) != nil {
 		return "", fmt.Errorf("invalid plugin executable file name. Plugin file name requires format notation-{plugin-name}.exe, but got %s", fileName)
 	}
 	return pluginName, nil
